@@ -35,6 +35,15 @@ theorem custom_arity (n : NodeIn α β) (p : NodeOut α β) (h : toOnnx n = [p])
   rw [hq] at h; cases h
   simp [hi, ho, len]
 
+/-- **custom_identity_free.** One Var in several declared inputs changes nothing: emission of a
+    user-defined operator commutes with any (non-injective) renaming of its arguments. -/
+theorem custom_identity_free {γ : Type} (f : α → γ) (n : NodeIn α β) :
+    toOnnx { n with inputs := n.inputs.map (Arg.map f), outputs := n.outputs.map (Arg.map f) } =
+      (toOnnx n).map fun p =>
+        { opType := p.opType, domain := p.domain, inputs := p.inputs.map (Option.map f),
+          outputs := p.outputs.map (Option.map f), attrs := p.attrs } := by
+  simp [toOnnx, emitNode, emitSlotsCustom_map]
+
 /-! ## opset imports -/
 
 theorem mem_domainsOf (reqs : List (String × Nat)) (d : String) :
